@@ -87,7 +87,10 @@ class Scaling:
         (num_cons, num_vars) = cons_jac.shape
         assert obj_grad.shape == (num_vars,)
 
-        jac = cons_jac.tocoo()
+        # duplicate entries of a sparse matrix are summed; work on a copy, the
+        # matrix belongs to the caller
+        jac = cons_jac.tocoo(copy=True)
+        jac.sum_duplicates()
 
         rows = jac.row
         cols = jac.col
